@@ -58,6 +58,8 @@ InDomain(r) ==
        [] r.form = "yy"       -> r.m \in 1..12 /\ r.d >= 1 /\ r.d <= DIMTab[r.m] /\ r.yy \in 0..99
                                  /\ r.base[1] >= 1970 /\ r.base[1] <= 2067
        [] r.form = "timegap"  -> TRUE
+       [] r.form = "timeaw"   -> r.t[1] \in 0..23 /\ r.t[2] \in 0..59 /\ r.t[3] \in 0..59
+                                 /\ OrdOf(r.base) > 2 /\ OrdOf(r.base) < MaxOrd - 2
        [] r.form = "timez"    -> r.t[1] \in 0..23 /\ r.t[2] \in 0..59 /\ r.t[3] \in 0..59
                                  /\ OrdOf(r.base) > 2 /\ OrdOf(r.base) < MaxOrd - 2
        [] OTHER -> FALSE
@@ -79,6 +81,9 @@ Holds(r, out) ==
          [] r.form = "timegap"  -> TimeKept(r, out)
          \* a clock time that carries its own zone (r.soff seconds east): that zone, not TIMEZONE, places the candidate
          \* on the reference's clock; the result is then expressed in TIMEZONE (r.off seconds east)
+         \* a clock time alone with a timezone-AWARE reference given in the zone that TIMEZONE names (r.off seconds east on
+         \* that day): reference and candidate are on one clock, the reference's own calendar day is the candidate's day
+         [] r.form = "timeaw"   -> out = TimeOnly(r.base, r.t, r.pref, 0)
          [] r.form = "timez"    -> out = ShiftSeconds(TimeOnly(r.base, r.t, r.pref, r.soff), r.off - r.soff)
          [] r.form = "month"    -> MonthOK(r.base, r.m, r.pref, out)
          [] r.form = "daymonth" -> DayMonthOK(r.base, r.m, r.d, r.pref, out)
